@@ -1242,3 +1242,91 @@ _run_before_cfgattrs = run
 def run(chk):       # noqa: F811
     _run_before_cfgattrs(chk)
     rule_config_attrs(chk, get_index())
+
+
+# ---------------------------------------------------------------------------------------------------------------
+# C19.merge-precedence (lead): when two sub-extractors of the merged date-time extractor report the SAME span, the Specs show the
+# reading of the one that ran first ('feb 30' -> date, not the date range '0030-02'; fr '16h' -> time, not the duration PT16H;
+# nl 'morgen' -> date, not the time range TMO; 'in the mornings' -> time range, not set).  add_to (with ExtractResult.overlap /
+# cover it calls) is interpreted by sa/ointerp.py on an accepted entity and a new one of equal span, alone and with a disjoint
+# neighbour on either side: exactly the accepted one must survive.
+
+PRECEDENCE_CONTROL = '''
+def add_to(self, destinations, source, text):
+    for value in source:
+        kept = [d for d in destinations if not (d.start == value.start and d.length == value.length)]
+        destinations[:] = kept
+        destinations.append(value)
+    return destinations
+'''
+
+
+def rule_merge_precedence(chk, idx):
+    from ..ointerp import FuncRef, Interp, Obj, PyExc
+    rid = 'C19.merge-precedence'
+    chk.rule(rid, 'of two sub-extractor results with the same span the merged extractor keeps the one that was accepted first '
+                  '(the Specs show the earlier sub-extractor\'s reading)', floor=2, control=True)
+    er_cls = idx.cls('recognizers_text.extractor.ExtractResult')
+    text = 'abcdefghij'
+
+    def mk(s, e, typ):
+        o = Obj(er_cls, {})
+        o.attrs.update({'start': s, 'length': e - s + 1, 'text': text[s:e + 1], 'type': typ, 'data': None, 'meta_data': None})
+        return o
+
+    def run_one(mod, fn, owner, cls_for_self, layout):
+        it = Interp(idx, where='add_to (equal spans)', budget=200000)
+        accepted = [mk(s, e, t) for s, e, t in layout]
+        new = mk(3, 5, 'second')
+        selfo = Obj(cls_for_self, {'options': 0})
+        if owner is None:
+            out = it.call_function(FuncRef(mod, fn, None), [selfo, accepted, [new], text], {})
+        else:
+            out = it.call_function(FuncRef(mod, fn, owner), [accepted, [new], text], {}, None, selfobj=selfo)
+        if not isinstance(out, list):
+            raise AnalysisError('add_to does not return the list of accepted entities')
+        return sorted((o.attrs.get('start'), o.attrs.get('length'), o.attrs.get('type')) for o in out)
+    layouts = {'alone': [(3, 5, 'first')],
+               'after a disjoint entity': [(0, 1, 'other'), (3, 5, 'first')],
+               'before a disjoint entity': [(3, 5, 'first'), (7, 9, 'other')],
+               'between two': [(7, 9, 'other'), (3, 5, 'first'), (0, 1, 'other2')]}
+    seen = set()
+    for cname in ('recognizers_date_time.date_time.base_merged.BaseMergedExtractor',
+                  'recognizers_date_time.date_time.chinese.merged_extractor.ChineseMergedExtractor'):
+        c = idx.cls(cname)
+        k, fn = idx.find_method(c, 'add_to') if c is not None else (None, None)
+        if fn is None:
+            raise AnalysisError('anchor vanished: %s.add_to' % cname)
+        if (k.name, fn.lineno) in seen:
+            continue
+        seen.add((k.name, fn.lineno))
+        chk.consulted(k.mod.path)
+        chk.consulted(er_cls.mod.path)
+        for name, layout in layouts.items():
+            try:
+                got = run_one(k.mod, fn, k, c, layout)
+                want = sorted((s, e - s + 1, t) for s, e, t in layout)
+                ok = got == want
+                what = 'result %s' % (got,)
+            except PyExc as ex:
+                ok, what = False, 'raises %s' % ex
+            chk.judge(ok, rid, k.mod.path, '%s.add_to[new entity equals an accepted one, %s]' % (k.name, name),
+                      'the accepted entity stays' if ok else 'the accepted entity does not stay',
+                      '%s.add_to: accepted %s + new (3, 3, \'second\') of the same span: %s - the entity accepted first must survive '
+                      'unchanged and the new one be dropped (Specs: \'feb 30\' is a date, not the date range 0030-02)'
+                      % (k.name, [(s, e - s + 1, t) for s, e, t in layout], what), fn.lineno)
+    ctl = ast.parse(PRECEDENCE_CONTROL).body[0]
+    base = idx.cls('recognizers_date_time.date_time.base_merged.BaseMergedExtractor')
+    try:
+        got = run_one(base.mod, ctl, None, base, layouts['alone'])
+    except PyExc:
+        got = None
+    chk.control(rid, got == [(3, 3, 'second')])
+
+
+_run_before_precedence = run
+
+
+def run(chk):       # noqa: F811
+    _run_before_precedence(chk)
+    rule_merge_precedence(chk, get_index())
